@@ -1,2 +1,32 @@
 //! verification hooks for engine `lex` (cfg(xray_verif) only)
 #![allow(unreachable_pub, dead_code, unused_imports)]
+
+use crate::root_compilation_scope::Interner;
+use crate::util::special_prefix_interner::SpecialPrefixSymbol;
+
+/// Intern every spelling in order in one fresh interner; for each: `item <idx>` / `regular <k>` where `k`
+/// numbers the distinct regular symbols in order of first appearance, and the text it resolves to.
+pub fn intern_all(names: &[String]) -> Vec<(String, String)> {
+    let mut interner = Interner::new();
+    let mut regs = Vec::new();
+    let mut out = Vec::new();
+    for n in names {
+        let sym = interner.get_or_intern(n.as_str());
+        let kind = match sym {
+            SpecialPrefixSymbol::Item(i) => format!("item {i}"),
+            SpecialPrefixSymbol::Regular(r) => {
+                let k = match regs.iter().position(|x| *x == r) {
+                    Some(k) => k,
+                    None => {
+                        regs.push(r);
+                        regs.len() - 1
+                    }
+                };
+                format!("regular {k}")
+            }
+        };
+        let text = interner.resolve(sym).unwrap_or("<none>").to_string();
+        out.push((kind, text));
+    }
+    out
+}
